@@ -15,7 +15,9 @@ import json,sys; m=json.load(open('$SEED/meta.json')); print('   summary:', str(
 # locate the demonstration: copy every *_seeddemo_test.go into the package named by demo_cmd, or seeddemo/ dirs as they are
 demo_cmd=$(python3 -c "import json; print(json.load(open('$SEED/meta.json')).get('demo_cmd',''))" 2>/dev/null)
 pkg=$(echo "$demo_cmd" | grep -o '\./[A-Za-z0-9_/\.]*' | grep -v '^\./\.\.\.' | head -1)
-copy_demo() { cp -r "$SEED" "$WT/$(basename "$SEED")"; [ -d "$SEED/seeddemo" ] && cp -r "$SEED/seeddemo" "$WT/"; true; }
+copy_demo() { cp -r "$SEED" "$WT/$(basename "$SEED")"; [ -d "$SEED/seeddemo" ] && cp -r "$SEED/seeddemo" "$WT/";
+  # when demo_cmd does not copy the demonstration itself, put every *_seeddemo_test.go into the package it names
+  if ! echo "$demo_cmd" | grep -q '^cp \|&& cp \|; cp '; then for f in "$SEED"/*_seeddemo_test.go; do [ -f "$f" ] && [ -n "$pkg" ] && cp "$f" "$WT/$pkg/"; done; fi; true; }
 run_demo() { (cd $WT && timeout 600 bash -c "$demo_cmd" > /var/tmp/seedtry-$N.demo 2>&1); echo $?; }
 if [ -n "$demo_cmd" ]; then
   copy_demo
